@@ -38,7 +38,8 @@ ASSUMPTIONS = ['MiniDB reproduces ZODB optimistic concurrency control: serial ch
 
 def bounds(tier):
     return ('quick: cover families; bases = all shapes N=4 @2/2, N=5 @3/2, N=6 @4/2 (C) / N=5 @4/2 (Py); '
-            'all pairs of 1-op transactions x 2 orders; other families N=4 @4/2; thorough: cover families '
+            'all pairs of 1-op transactions x 2 orders; trees that are instances of an application subclass '
+            '(II OO fs, N=5 @4/2); other families N=4 @4/2; thorough: cover families '
             'N=5 @2/2, N=6 @3/2, N=7 @4/2 and 4/3, 2-op transactions on N=4 @4/2, thinning 7 keys x 3 orders; '
             'the other 15 families at the quick depth of the cover families')
 
@@ -46,7 +47,7 @@ def bounds(tier):
 def required_guards(tier):
     return ['outcome:ok-untouched', 'outcome:resolved', 'outcome:read-conflict',
             'outcome:unresolved', 'reason:13', 'reason:12', 'readcurrent_checked',
-            'pure_reads_checked', 'c:height>=3', 'py:height>=3']
+            'pure_reads_checked', 'c:height>=3', 'py:height>=3', 'subclass_tree']
 
 
 def configs(tier):
@@ -79,9 +80,18 @@ def configs(tier):
 
 
 def jobs(tier):
-    return [{'fn': 'job', 'weight': w, 'group': '%s/%s' % (impl, kind),
-             'args': dict(fam=fam, kind=kind, impl=impl, sizes=sizes, n=n, L=L)}
-            for fam, kind, impl, sizes, n, L, w in configs(tier)]
+    js = [{'fn': 'job', 'weight': w, 'group': '%s/%s' % (impl, kind),
+           'args': dict(fam=fam, kind=kind, impl=impl, sizes=sizes, n=n, L=L)}
+          for fam, kind, impl, sizes, n, L, w in configs(tier)]
+    # trees that are instances of an application subclass: roomy leaves (the root stays one embedded
+    # leaf up to 4 keys, so conflicts are resolved at TREE level) and a split one
+    for fam in (('II', 'OO', 'fs') if tier == 'quick' else F.COVER):
+        for impl in F.IMPLS:
+            for kind in F.TREE_KINDS:
+                js.append({'fn': 'job', 'weight': 20, 'group': '%s/%s/subclass' % (impl, kind),
+                           'args': dict(fam=fam, kind=kind, impl=impl, sizes=(4, 2),
+                                        n=5 if tier == 'quick' else 6, L=1, subclass=True)})
+    return js
 
 
 # --------------------------------------------------------------------------
@@ -185,8 +195,10 @@ def pure_reads(ctx, conn, t, keys, grid, rep, guards, case):
                 'pure reads declared %r' % (bad[:3],))
 
 
-def job(fam, kind, impl, sizes, n, L):
-    ctx = O.Ctx(fam, kind, impl)
+def job(fam, kind, impl, sizes, n, L, subclass=False):
+    # subclass: the tree is an instance of an application subclass (class Catalog(IIBTree)); the bases
+    # are the same shapes (the subclass carries the same node sizes)
+    ctx = O.Ctx(fam, kind, impl, subclass_sizes=sizes if subclass else None)
     thin = None
     if isinstance(L, str):
         thin, L = L[5:], 1
@@ -204,11 +216,15 @@ def job(fam, kind, impl, sizes, n, L):
         if g.startswith('height'):
             guards['%s:%s' % (impl, g)] = guards[g]
     outcomes = collections.Counter()
-    base_case = dict(fam=fam, kind=kind, impl=impl, sizes=sizes, n=n, L=L)
+    base_case = dict(fam=fam, kind=kind, impl=impl, sizes=sizes, n=n, L=L, subclass=subclass)
+    if subclass:
+        guards['subclass_tree'] += 1
     scenarios = 0
     compared = 0
     sample = None
     from BTrees.check import check as bcheck
+    if subclass:
+        bcheck = lambda t: None     # BTrees.check only knows the exact classes
     for hist, c in bases:
         if rep.full:
             break
@@ -390,13 +406,15 @@ def dict_of(m):
 def replay(case):
     """Re-run the job restricted to the recorded scenario."""
     fam, kind, impl = case['fam'], case['kind'], case['impl']
-    ctx = O.Ctx(fam, kind, impl)
+    ctx = O.Ctx(fam, kind, impl, subclass_sizes=tuple(case['sizes']) if case.get('subclass') else None)
     F.set_sizes(fam, *case['sizes'])
     keys, grid = F.universe(fam, case['n'], 'centred')
     vals = F.values(fam)
     rep = Reporter('C08', cap=10**9)
     guards = collections.Counter()
     from BTrees.check import check as bcheck
+    if case.get('subclass'):
+        bcheck = lambda t: None
     st = M.Storage()
     c0 = M.Connection(st)
     t0 = ctx.new()
